@@ -10,6 +10,8 @@
     never executes pool tasks while it drains: if it is itself a worker of the global pool
     it is simply lost to the pool. *)
 From WG Require Import Base.Prelude PMF.Sched.
+
+Module PmfOrdM.
 Local Open Scope N_scope.
 
 (** * Reorder buffer *)
@@ -236,3 +238,7 @@ Definition pmf_ord_run (caller_workers gworkers : nat) (hint : option nat) (call
 (** the value computed from an arrival order *)
 Definition ord_value {R A} (f : N -> R) (fold : A -> R -> A) (init : A) (arrivals : list N) : A :=
   rb_value fold (map (fun i => (i, f i)) arrivals) init.
+
+
+End PmfOrdM.
+Export PmfOrdM.
